@@ -95,7 +95,9 @@ class InversionImagingWTilde(AbstractInversionImaging):
         """
 
         if self.preloads.data_vector_mapper is not None:
-            return self.preloads.data_vector_mapper
+            # Need to copy because the entries of the linear function lists are written into this array.
+
+            return copy.copy(self.preloads.data_vector_mapper)
 
         if not self.has(cls=AbstractMapper):
             return None
@@ -293,7 +295,9 @@ class InversionImagingWTilde(AbstractInversionImaging):
         """
 
         if self.preloads.curvature_matrix_mapper_diag is not None:
-            return self.preloads.curvature_matrix_mapper_diag
+            # Need to copy because the blocks of the other linear objects are written into this array.
+
+            return copy.copy(self.preloads.curvature_matrix_mapper_diag)
 
         if not self.has(cls=AbstractMapper):
             return None
